@@ -795,6 +795,19 @@ fn nonhex_sweep(seed: u64) -> Vec<TextCase> {
             }
         }
     }
+    // every ASCII character 0x01..=0x7f that is not a hex digit (control characters included) at the ends and
+    // seams of the three fields
+    for pos in [0usize, 1, 63, 64, 65, 127, 128, 129] {
+        for b in 1u8..=0x7f {
+            let c = b as char;
+            if c.is_ascii_hexdigit() {
+                continue;
+            }
+            for prefix in ["", "0x"] {
+                out.push(TextCase { text: format!("{prefix}{}", replace_char(&body, pos, &c.to_string())), made_by: format!("ASCII sweep: {c:?} at digit {pos}") });
+            }
+        }
+    }
     out
 }
 
@@ -1159,7 +1172,7 @@ fn cli_text_cases(seed: u64, n_mutants: usize) -> Vec<CliTextCase> {
 // ---------------------------------------------------------------- run / replay
 
 pub fn run(ctx: &mut Ctx) {
-    ctx.rule = "In-process: (a) signatures made by PrivateKey::sign over the C04 key strategy x C05 digest strategy; (b) synthetic Signature::from_parts(r, s, p) with r, s from {1, 2, n-1, n-2, (n-1)/2, (n+1)/2, 2^k, short, zero top nibble, uniform}; for each the printed text must be 0x || hex64(r) || hex64(s) || hex2(27+p) (hex by the harness' own loop, from the accessors and, for low-s synthetic parts, from the inputs) and parsing it with and without the prefix must give an == signature with the same accessors. (c) text cases judged by read_text, an independent reading of signature text written from the property (optional 0x, exactly 130 hex digits, v in {27,28}, 1 <= r,s < n): canonical text must parse to exactly the denoted (r, s, p) and print back canonically, malformed text must be Err without a panic, unspecified spellings (upper-case digits, 0X, high s) must not panic and if accepted must denote the written scalars. Text comes from 17 mutations of a valid base (non-hex replace/insert, final byte, r or s in {0, n, n+1, 2^256-1, >= n}, white space, prefix variants, +-1/2 digits, truncations, v first, v as parity/EIP-155) and from exhaustive sweeps: every length 0..=140 x {no prefix, 0x} x variants, all 256 final bytes, a 10 x 10 boundary-scalar grid, 26 non-hex characters at each of the 130 digit positions, 20 prefix variants and 6 white-space strings in every placement. CLI: (d) pipelines over txgen transaction documents (five shapes) x mnemonic x account options: S = sign transaction --signature-only, F = sign transaction, H = hash transaction --signature S (four argv forms), required: S has the stated textual form of the (r, s, yParity) strictly RLP-decoded from F, and H = sha3-crate Keccak-256 of the bytes of F, with S as printed and without its 0x; (e) a sample of the text cases passed as --signature=TEXT (malformed -> ordinary error exit, canonical -> exit 0, never a panic). Non-trivial: every case except the unit-test vector; distinct by text / (document, S).".into();
+    ctx.rule = "In-process: (a) signatures made by PrivateKey::sign over the C04 key strategy x C05 digest strategy; (b) synthetic Signature::from_parts(r, s, p) with r, s from {1, 2, n-1, n-2, (n-1)/2, (n+1)/2, 2^k, short, zero top nibble, uniform}; for each the printed text must be 0x || hex64(r) || hex64(s) || hex2(27+p) (hex by the harness' own loop, from the accessors and, for low-s synthetic parts, from the inputs) and parsing it with and without the prefix must give an == signature with the same accessors. (c) text cases judged by read_text, an independent reading of signature text written from the property (optional 0x, exactly 130 hex digits, v in {27,28}, 1 <= r,s < n): canonical text must parse to exactly the denoted (r, s, p) and print back canonically, malformed text must be Err without a panic, unspecified spellings (upper-case digits, 0X, high s) must not panic and if accepted must denote the written scalars. Text comes from 17 mutations of a valid base (non-hex replace/insert, final byte, r or s in {0, n, n+1, 2^256-1, >= n}, white space, prefix variants, +-1/2 digits, truncations, v first, v as parity/EIP-155) and from exhaustive sweeps: every length 0..=140 x {no prefix, 0x} x variants, all 256 final bytes, a 10 x 10 boundary-scalar grid, 26 non-hex characters at each of the 130 digit positions and every non-hex ASCII character 0x01..0x7f at eight positions, 20 prefix variants and 6 white-space strings in every placement. CLI: (d) pipelines over txgen transaction documents (five shapes) x mnemonic x account options: S = sign transaction --signature-only, F = sign transaction, H = hash transaction --signature S (four argv forms), required: S has the stated textual form of the (r, s, yParity) strictly RLP-decoded from F, and H = sha3-crate Keccak-256 of the bytes of F, with S as printed and without its 0x; (e) a sample of the text cases passed as --signature=TEXT (malformed -> ordinary error exit, canonical -> exit 0, never a panic). Non-trivial: every case except the unit-test vector; distinct by text / (document, S).".into();
     ctx.assumptions = vec![
         "letter case of printed hex digits is not fixed by the property (compared case-insensitively, counted as unspecified if upper-case appears)".into(),
         "upper-case digits, an upper-case 0X prefix and high-s values are unspecified for parsing: no panic; if accepted they must denote the written scalars".into(),
